@@ -261,6 +261,11 @@ def gen_c04_don(seed):
 
 def _don04_random_fset(case, seed):
     r = rnd(seed, "gen-don04-fset")
+    rn = rnd(seed, "gen-don04-neighbour")
+    if rn.random() < 0.5:
+        fs0 = case["fsets"][0]
+        case["fsets"] = [fs0, {"fam": rn.choice(("lin", "sin", "quad")), "ks": [round(rn.uniform(0.1, 1.5), 3) for _ in fs0["ks"]]}]
+        return case
     if r.random() < 0.5:
         fs = case["fsets"][0]
         case["fsets"] = [{"fam": fs["fam"], "kn": len(fs["ks"])}]     # function parameters drawn afresh every iteration
